@@ -197,6 +197,7 @@ package fs
 
 //@ func (*readFile).truncated
 //@   assigns *fd, fs
+//@   at-call (*os.File).Seek [reader-position-only-queried] implies(arg0 == fd, arg1 == 0 && arg2 == 1)
 //@   ensures [error-when-truncated] implies(result0, !isnil(result1))
 
 //@ func (*readFile).handleReadError
